@@ -79,10 +79,19 @@ inductive LstOut
   | good | missing | raises | quiet
   deriving DecidableEq, Repr
 
+/-- what it printed (stdout and stderr reach `pretty_shx_output` line by line through one pipe), by what the filter of
+    the tree as found does with it: `plain` = shown or dropped; `raises` = an exception leaves the reading loop (a byte
+    that is not UTF-8 in text-mode `Popen`, an ` R1` line with fewer than three words: IndexError); `nohkl` = the line
+    'CANNOT OPEN FILE …hkl', on which the filter itself calls `sys.exit()` -/
+inductive ConOut
+  | plain | raises | nohkl
+  deriving DecidableEq, Repr
+
 structure Outcome (B : Type) where
   exit : Int
   res  : ResOut B
   lst  : LstOut
+  con  : ConOut
   deriving DecidableEq, Repr
 
 /-- one `refine(cycles, backup_before)` call together with what SHELXL will do in it -/
@@ -105,10 +114,12 @@ structure Fix where
   acta  : Bool   -- C19_4: a run that does not complete gives the in-memory model its ACTA back
   dow   : Bool   -- C04_1: the parser no longer records absorbed FVAR/SFAC/SYMM lines by absolute index in
                  --        `delete_on_write` (they are blanked in place), so deleting/inserting ACTA cannot shift anything
+  con   : Bool   -- C19_5: what SHELXL prints cannot abort the protocol (undecodable bytes replaced, errors of the display
+                 --        filter ignored, 'cannot open hkl' counts as a failed run instead of leaving on the spot)
   deriving DecidableEq, Repr
 
-def Fix.all : Fix := ⟨true, true, true, true, true⟩
-def Fix.none : Fix := ⟨false, false, false, false, false⟩
+def Fix.all : Fix := ⟨true, true, true, true, true, true⟩
+def Fix.none : Fix := ⟨false, false, false, false, false, false⟩
 
 variable {B R : Type}
 
@@ -159,13 +170,17 @@ def runShelxl (f : Fix) (c : Codec B R) (fs : FS B) (call : Call B) : FS B × Op
     | none => (fs, some .SystemExit)                           -- 'Unable to make backup file' / sys.exit()
     | some fs1 =>
       let fs2 := { fs1 with res := left fs1.res call.out.res } -- the external program runs
-      if call.out.lst == .raises && !f.lst then (fs2, some .IndexError)   -- check_refinement_results
+      if call.out.con == .raises && !f.con then (fs2, some .IndexError)   -- reading/filtering its output raises
+      else if call.out.con == .nohkl && !f.con then (fs2, some .SystemExit)  -- pretty_shx_output: sys.exit() on the spot
+      else if call.out.lst == .raises && !f.lst then (fs2, some .IndexError)   -- check_refinement_results
       else match fs2.res with
         | none =>
           if f.stat then (restoreStep f call.backup fs2, some .SystemExit)
           else (fs2, some .FileNotFoundError)                  -- os.stat(resfile)
         | some b =>
-          if call.out.exit != 0 || c.size b < 10 then (restoreStep f call.backup fs2, some .SystemExit)
+          -- repaired: 'cannot open hkl' sets status = False and the evaluation below still takes place
+          if call.out.exit != 0 || c.size b < 10 || call.out.con == .nohkl then
+            (restoreStep f call.backup fs2, some .SystemExit)
           else (fs2, none)
 
 /-- `self.cycles.number = cycles` when a number is given -/
@@ -224,6 +239,114 @@ def traceSteps (f : Fix) (c : Codec B R) : St B R → List (Step B) → List (St
     match load c st w with
     | some st' => traceSteps f c st' t
     | none => []
+
+/-! ### the line list (`_reslist`) as far as the ACTA handling looks at it
+
+  `Doc.acta.off` above is a number the abstract model sets to 1 when ACTA is put back. Here is where that number comes
+  from: the list of lines in memory. The list BEFORE the run and the list AFTER the reload are different lists of different
+  lengths — `write_shelx_file` does not write the entries that print as nothing (a blank line of the user's file, the
+  place of a continuation line, of a second SFAC or FVAR line), SHELXL adds lines of its own — so a position means
+  something in one of them only. -/
+
+/-- one entry of `_reslist`: the UNIT card (`shx.unit`), the ACTA card (`shx.acta`; id of its text), an entry that
+    `write_shelx_file` does not write (`gap`), any other line (`tag`: its keyword) -/
+inductive Line (T : Type)
+  | unit | acta (text : Nat) | gap | other (tag : T)
+  deriving DecidableEq, Repr
+
+section Lines
+variable {T : Type}
+
+@[simp] def Line.isActa : Line T → Bool
+  | .acta _ => true
+  | .unit => false
+  | .gap => false
+  | .other _ => false
+
+@[simp] def Line.isUnit : Line T → Bool
+  | .unit => true
+  | .acta _ => false
+  | .gap => false
+  | .other _ => false
+
+@[simp] def Line.isGap : Line T → Bool
+  | .gap => true
+  | .unit => false
+  | .acta _ => false
+  | .other _ => false
+
+/-- `shx.acta` (the text of the card) -/
+def actaText : List (Line T) → Option Nat
+  | [] => none
+  | .acta n :: _ => some n
+  | _ :: t => actaText t
+
+/-- `del self.shx._reslist[self.shx.index_of(acta_card)]` -/
+def delActa : List (Line T) → List (Line T)
+  | [] => []
+  | .acta _ :: t => t
+  | x :: t => x :: delActa t
+
+/-- `_reslist.insert(unit.index + 1, ' ')`, `_reslist[unit.index + 1] = ACTA(…)` — `unit.index` is looked up in the list
+    as it is NOW. `none`: the list has no UNIT (`None.index`: AttributeError). -/
+def putActa (n : Nat) : List (Line T) → Option (List (Line T))
+  | [] => none
+  | .unit :: t => some (.unit :: .acta n :: t)
+  | x :: t => (putActa n t).map (x :: ·)
+
+/-- `_reslist.insert(i, ACTA(…))` at a given position (what a position taken from ANOTHER list amounts to) -/
+def putAt (i n : Nat) (l : List (Line T)) : List (Line T) :=
+  l.take i ++ .acta n :: l.drop i
+
+/-- `index_of`: position of the first entry with the property -/
+def idxOf (p : Line T → Bool) : List (Line T) → Option Nat
+  | [] => none
+  | x :: t => if p x then some 0 else (idxOf p t).map (· + 1)
+
+/-- `shx.acta` as the document sees it: its text and `index_of(acta) − index_of(unit)` -/
+def docActa (l : List (Line T)) : Option Acta :=
+  match actaText l, idxOf Line.isActa l, idxOf Line.isUnit l with
+  | some n, some i, some u => some ⟨n, (i : Int) - (u : Int)⟩
+  | _, _, _ => none
+
+/-- what `write_shelx_file` writes, and what any reader of that file finds: the entries that print as nothing are gone -/
+def squeeze (l : List (Line T)) : List (Line T) :=
+  l.filter fun x => !x.isGap
+
+/-- the user's card (if the model has one) goes into the list -/
+def putUser (user : Option Nat) (base : List (Line T)) : Option (List (Line T)) :=
+  match user with
+  | none => some base
+  | some n => putActa n base
+
+/-- the list a call leaves in memory. `lnew` = the list `reload()` built from the new result (the run succeeded) or
+    `none` (an exception left `run_shelxl`: the list is the one ACTA was taken out of). -/
+def linesAfter (l : List (Line T)) (lnew : Option (List (Line T))) : Option (List (Line T)) :=
+  putUser (actaText l) (match lnew with
+    | some ln => ln
+    | none => delActa l)
+
+/-! line-level specification -/
+
+/-- the entry that follows UNIT -/
+def afterUnit : List (Line T) → Option (Line T)
+  | [] => none
+  | .unit :: t => t.head?
+  | _ :: t => afterUnit t
+
+/-- all lines but ACTA cards -/
+def sansActa (l : List (Line T)) : List (Line T) :=
+  l.filter fun x => !x.isActa
+
+/-- after the call the lines in memory are those of `base` (the new result after a good run; the lines the object had
+    otherwise) and, when the user's model has an ACTA card, exactly that one card, directly after UNIT -/
+def specLines [DecidableEq T] (user : Option Nat) (base l' : List (Line T)) : Bool :=
+  match user with
+  | none => l' == base
+  | some n => afterUnit l' == some (.acta n) && sansActa l' == sansActa base &&
+      (l'.filter Line.isActa).length == (base.filter Line.isActa).length + 1
+
+end Lines
 
 /-! ### specification (from the property text, not from the code) -/
 
@@ -300,12 +423,18 @@ def lastGood (c : Codec B R) (r0 : Option B) : List (Call B) → Option B
 
 /-! ### domain predicates (hypotheses of the theorems, all decidable) -/
 
-/-- result files are empty or real: the code calls a .res of fewer than 10 bytes a failure, the property says
-    "empty"; 1–9 bytes are neither an empty nor a usable SHELXL file -/
+/-- the outcomes the property's split into "failed" and "succeeded" applies to.
+    (1) result files are empty or real: the code calls a .res of fewer than 10 bytes a failure, the property says
+    "empty"; 1–9 bytes are neither an empty nor a usable SHELXL file.
+    (2) a program that reports that it cannot open the reflection file has failed in the property's sense (status ≠ 0
+    or no usable result): the code counts that report as a failure (restores, raises) — a run that prints it and still
+    delivers a result with status 0 would be a success by the property's wording. Real code at the excluded point:
+    <name>.res restored from the backup, SystemExit. -/
 def plausible (c : Codec B R) (pre : Option B) (o : Outcome B) : Bool :=
-  match left pre o.res with
-  | none => true
-  | some b => c.size b == 0 || 10 ≤ c.size b
+  (match left pre o.res with
+   | none => true
+   | some b => c.size b == 0 || 10 ≤ c.size b) &&
+  (o.con != .nohkl || failed c pre o)
 
 /-- (legacy, code before C04_1 only) the object's `delete_on_write` bookkeeping fits its lines once ACTA is taken out -/
 def inSync (m : Mem R) : Bool :=
